@@ -3,7 +3,7 @@
    codes, feature bits, layouts, header constructor and validators are the
    regenerated definitions; control flow is by hand and tied to the code by
    the correspondence family "fe". *)
-From VV Require Import Base.Bits Base.Rt Base.Val Gen.GenConsts Gen.GenLayout Gen.GenFns Gen.GenVrfd Model.Transport.
+From VV Require Import Base.Bits Base.Rt Base.Val Gen.GenConsts Gen.GenLayout Gen.GenFns Gen.GenVrfd Gen.GenFeRecv Model.Transport.
 Open Scope string_scope.
 Open Scope list_scope.
 Open Scope N_scope.
@@ -45,90 +45,91 @@ Definition verr_s (e : verr) : val :=
 (* ---- receive paths ---- *)
 Definition sz (t : fty) : nat := fty_size t.
 
-(* Endpoint::recv_body::<T>: header and body in one loop of 12 + |T| bytes *)
+(* Endpoint::recv_body::<T>: header and body in one loop of 12 + |T| bytes.  The decisions (frb_d1: short read, frb_d2:
+   invalid header or body) are REGENERATED from connection.rs (Gen.GenFeRecv), as are those of the five reply readers below *)
 Definition recv_body {T} (lay : fty) (read : list N -> nat -> T) (valid : T -> bool) (q : stream)
   : rresult (VhostUserMsgHeader * T * option (list N)) :=
   let total := (12 + sz lay)%nat in
   match recv_all (fuel_for q total) total [] None [] q with
   | RxAllFuel => RErr ESocketError
   | RxAll bytes files _ _ =>
-      if negb (Nat.eqb (List.length bytes) total) then RErr EPartialMessage
-      else
-        let h := VhostUserMsgHeader_read bytes 0 in
-        let b := read bytes 12%nat in
-        if negb (VhostUserMsgHeader_is_valid RF h) || negb (valid b) then RErr EInvalidMessage
-        else ROk (h, b, files)
+      let h := VhostUserMsgHeader_read bytes 0 in
+      let b := read bytes 12%nat in
+      let nb := N.of_nat (List.length bytes) in
+      let nt := N.of_nat total in
+      if frb_d1 nb nt (VhostUserMsgHeader_is_valid RF h) (valid b) then RErr EPartialMessage
+      else if frb_d2 nb nt (VhostUserMsgHeader_is_valid RF h) (valid b) then RErr EInvalidMessage
+      else ROk (h, b, files)
   end.
 
 (* FrontendInternal::recv_reply::<T> *)
 Definition recv_reply {T} (req : VhostUserMsgHeader) (lay : fty) (read : list N -> nat -> T) (valid : T -> bool)
            (q : stream) : rresult T :=
-  if (N.to_nat MAX_MSG_SIZE <? sz lay)%nat || VhostUserMsgHeader_is_reply RF req then RErr EInvalidParam
+  if frr_d1 (N.of_nat (sz lay)) MAX_MSG_SIZE (VhostUserMsgHeader_is_reply RF req) then RErr EInvalidParam
   else match recv_body lay read valid q with
        | RErr e => RErr e
        | ROk (h, b, files) =>
-           if negb (VhostUserMsgHeader_is_reply_for RF h req) || o_is_some files || negb (valid b)
+           if frr_d2 (VhostUserMsgHeader_is_reply_for RF h req) (o_is_some files) (valid b)
            then RErr EInvalidMessage else ROk b
        end.
 
 Definition recv_reply_opt_files {T} (req : VhostUserMsgHeader) (lay : fty) (read : list N -> nat -> T)
            (valid : T -> bool) (q : stream) : rresult (T * option (list N)) :=
-  if (N.to_nat MAX_MSG_SIZE <? sz lay)%nat || VhostUserMsgHeader_is_reply RF req then RErr EInvalidParam
+  if fro_d1 (N.of_nat (sz lay)) MAX_MSG_SIZE (VhostUserMsgHeader_is_reply RF req) then RErr EInvalidParam
   else match recv_body lay read valid q with
        | RErr e => RErr e
        | ROk (h, b, files) =>
-           if negb (VhostUserMsgHeader_is_reply_for RF h req) || negb (valid b)
+           if fro_d2 (VhostUserMsgHeader_is_reply_for RF h req) (o_is_some files) (valid b)
            then RErr EInvalidMessage else ROk (b, files)
        end.
 Definition recv_reply_files {T} (req : VhostUserMsgHeader) (lay : fty) (read : list N -> nat -> T)
            (valid : T -> bool) (q : stream) : rresult (T * option (list N)) :=
   match recv_reply_opt_files req lay read valid q with
   | RErr e => RErr e
-  | ROk (b, None) => RErr EInvalidMessage
-  | ROk (b, Some f) => ROk (b, Some f)
+  | ROk (b, files) => if frf_d1 (o_is_some files) then RErr EInvalidMessage else ROk (b, files)
   end.
 
 (* wait_for_ack *)
 Definition wait_for_ack (s : fe_state) (req : VhostUserMsgHeader) (q : stream) : rresult unit :=
-  if negb (hasf (fe_apf s) VhostUserProtocolFeatures_REPLY_ACK) || negb (VhostUserMsgHeader_is_need_reply RF req)
+  if fra_d1 (fe_apf s) (VhostUserMsgHeader_is_need_reply RF req)
   then ROk tt
   else match recv_body VhostUserU64_layout VhostUserU64_read VhostUserU64_is_valid q with
        | RErr e => RErr e
        | ROk (h, b, files) =>
-           if negb (VhostUserMsgHeader_is_reply_for RF h req) || o_is_some files || negb (VhostUserU64_is_valid b)
+           if fra_d2 (VhostUserMsgHeader_is_reply_for RF h req) (o_is_some files) (VhostUserU64_is_valid b)
            then RErr EInvalidMessage
-           else if negb (VhostUserU64_value b =? 0) then RErr EBackendInternal else ROk tt
+           else if fra_d3 (VhostUserU64_value b) then RErr EBackendInternal else ROk tt
        end.
 
-(* recv_reply_with_payload::<VhostUserConfig>: header first, then exactly the announced size *)
+(* recv_reply_with_payload::<VhostUserConfig>: header first (Endpoint::recv_header: frh_d1..3), then exactly the announced size *)
 Definition recv_reply_payload (req : VhostUserMsgHeader) (q : stream)
   : rresult (VhostUserConfig * list N * option (list N)) :=
   let tsz := sz VhostUserConfig_layout in
-  let rsize := N.to_nat (VhostUserMsgHeader_get_size RF req) in
-  if (N.to_nat MAX_MSG_SIZE <? tsz)%nat || (rsize <=? tsz)%nat || (N.to_nat MAX_MSG_SIZE <? rsize)%nat
-     || VhostUserMsgHeader_is_reply RF req then RErr EInvalidParam
+  let ntsz := N.of_nat tsz in
+  let rsize := VhostUserMsgHeader_get_size RF req in
+  if frp_d1 ntsz rsize MAX_MSG_SIZE (VhostUserMsgHeader_is_reply RF req) then RErr EInvalidParam
   else
     match recv_all (fuel_for q 12) 12 [] None [] q with
     | RxAllFuel => RErr ESocketError
     | RxAll hb files _ q1 =>
-        if Nat.eqb (List.length hb) 0 then RErr EDisconnected
-        else if negb (Nat.eqb (List.length hb) 12) then RErr EPartialMessage
+        let h := VhostUserMsgHeader_read hb 0 in
+        let nhb := N.of_nat (List.length hb) in
+        let hv := VhostUserMsgHeader_is_valid RF h in
+        if frh_d1 nhb 12 hv then RErr EDisconnected
+        else if frh_d2 nhb 12 hv then RErr EPartialMessage
+        else if frh_d3 nhb 12 hv then RErr EInvalidMessage
         else
-          let h := VhostUserMsgHeader_read hb 0 in
-          if negb (VhostUserMsgHeader_is_valid RF h) then RErr EInvalidMessage
-          else
-            let size := N.to_nat (VhostUserMsgHeader_get_size RF h) in
-            if negb (VhostUserMsgHeader_is_reply_for RF h req) || o_is_some files
-               || (size <? tsz)%nat || (rsize <? size)%nat then RErr EInvalidMessage
+            let size := VhostUserMsgHeader_get_size RF h in
+            if frp_d2 (VhostUserMsgHeader_is_reply_for RF h req) (o_is_some files) size ntsz rsize then RErr EInvalidMessage
             else
-              match recv_data size q1 with
+              match recv_data (N.to_nat size) q1 with
               | RxDRetry _ _ => RErr ESocketRetry
               | RxD buf _ _ =>
-                  if negb (Nat.eqb (List.length buf) size) then RErr EPartialMessage
+                  if frp_d3 (N.of_nat (List.length buf)) size then RErr EPartialMessage
                   else
                     let b := VhostUserConfig_read buf 0%nat in
                     let payload := skipn tsz buf in
-                    if negb (VhostUserConfig_is_valid b) || negb (Nat.eqb (List.length payload) (rsize - tsz))
+                    if frp_d4 (VhostUserConfig_is_valid b) (N.of_nat (List.length payload)) rsize ntsz
                     then RErr EInvalidMessage
                     else ROk (b, payload, files)
               end
